@@ -338,14 +338,24 @@ def c02(ctx):
         cmd = [c for c in C02_RUNS if c[0] == label][0][3]
         confirmed = None
         if not name.startswith("("):
+            # a failure class is reported only if its representative fails again on its own, every time: twice in a row,
+            # and - when the text is a transport-level refusal/time-out, which an overloaded machine produces by itself
+            # (e.g. quic-go answers CONNECTION_REFUSED when its accept queue is full) - five times with pauses in between
+            import time as _time
+            transportish = any(t in detail for t in ("CONNECTION_REFUSED", "connection refused", "i/o timeout", "handshake", "connection reset", "no recent network activity"))
+            need = 5 if transportish else 2
             fails = 0
-            for attempt in range(2):
+            for attempt in range(need):
+                if attempt >= 2:
+                    _time.sleep(8)
                 args = ["--conf", os.path.join(e2e.REPO, conf), "--mode", mode, "--test-file", os.path.join(gdir, f), "--run", name, "--max-servers", "1"] + cmd(bins)
                 rc, to, text = e2e.run_runner(ctx, bins, args, "c02-rerun", timeout=300)
                 o2 = e2e.parse_output(text)
                 if rc != 0 or o2["failed"] or o2["total"] is None:
                     fails += 1
-            confirmed = fails == 2
+                else:
+                    break
+            confirmed = fails == need
         if confirmed is False:
             stats.setdefault("flaky_reruns", []).append({"class": cls, "name": name})
             continue
